@@ -49,8 +49,9 @@ def _init(aux):
     from corankco.dataset import Dataset
     from corankco.ranking import Ranking
     from corankco.scoringscheme import ScoringScheme
+    from corankco.consensus import Consensus
     _impl.update(K=KemenyComputingFactory, Inv=InvalidRankingsForComputingDistance, Dataset=Dataset,
-                 Ranking=Ranking, SS=ScoringScheme)
+                 Ranking=Ranking, SS=ScoringScheme, Cons=Consensus)
 
 
 def run_case(case):
@@ -72,8 +73,14 @@ def run_case(case):
             # ONE factory per scheme serves every case of this worker (history of the factory object), and the
             # candidate is a fresh temporary object for each call
             if si not in fac:
-                fac[si] = K(SS(core.scheme_float(B, T, unit)))
+                fac[si] = K(core.build_scheme(B, T, unit, si))
             sc = fac[si].get_kemeny_score(Ranking(am.norm_ranking(case["c"])), ds)
+            if si < 3:
+                # the same score through the other public route: a Consensus object holding the candidate
+                via = _impl["Cons"]([Ranking(am.norm_ranking(case["c"]))], dataset=ds,
+                                    scoring_scheme=fac[si].scoring_scheme).kemeny_score
+                if via != sc:
+                    sc = via
             v, exact = core.to_units(sc, unit)
             if abs(float(sc) * unit) >= 2 ** 31 - 1:
                 vals.append([0, 2])          # beyond TLC's 32-bit integers under this (probing) scheme: not compared
